@@ -1,4 +1,4 @@
-"""F-NAME: every string-relational operation on a module-name-typed value must respect dotted-component boundaries.
+r"""F-NAME: every string-relational operation on a module-name-typed value must respect dotted-component boundaries.
 
 Module-name-typed values are found by provenance (tag NAME of the flow engine), not by variable names:
   `.identifier` / `.parent_module` of module filters and modules (public API), results of Import.importer()/importee()/
